@@ -324,16 +324,31 @@ def rule_OR2_responder(ctx, tier):
         else:
             rr.fail("fbc:completed-not-deleted", "completed trackers are not handed to delete_appointments on every path", where=f.line_of(sw))
     ext = sites(f, "std::iter::Extend::extend") + sites_containing(f, "Extend", "extend")
+    from .rulekit import reach_without_edges
+    empty_true = set(switch_succ_with(ctx, f, "truth", True, "is_empty"))
+    rets = f.return_blocks()
     for name in ("Responder::handle_reorged_txs", "Responder::rebroadcast_stale_txs"):
+        short = name.split("::")[-1]
         es = switch_succ_with(ctx, f, "variant", "Some", name)
-        if not es:
-            rr.fail("fbc:%s-result-ignored" % name.split("::")[-1], "the rejected list of %s is not examined" % name, where=f.span)
-        for sw, succ in es:
-            tgt = [e for e in set(ext) if has_call(arg_origin(ctx, f, e, 1), name)]
-            if tgt and always_reaches(f, [succ], tgt):
-                rr.ok("%s rejected -> trackers_to_delete" % name.split("::")[-1])
-            else:
-                rr.fail("fbc:%s-rejected-kept" % name.split("::")[-1], "trackers rejected by %s are not queued for deletion" % name, where=f.line_of(sw))
+        ext_t = [e for e in set(ext) if has_call(arg_origin(ctx, f, e, 1), name)]
+        direct = [d for d in dels if has_call(arg_origin(ctx, f, d, 1), name)]
+        acc_ok = bool(es and ext_t) and all(always_reaches(f, [succ], ext_t) for sw, succ in es)
+        val_ok = False
+        if direct:
+            # value form: the list handed to the no-refund delete is built from x()'s result (e.g. a match on the pair of
+            # results); from the call on, every path reaches that delete unless the list was found empty
+            xs = sites(f, RSP + short)
+            cut = empty_true | {(d, s_) for d in direct for s_ in f.succ(d)}
+            leak = [x for x in xs if any(reach_without_edges(f, s0, r_, cut, stop=lambda q: q in direct) for s0 in f.succ(x) for r_ in rets)]
+            val_ok = bool(xs) and not leak
+        if acc_ok:
+            rr.ok("%s rejected -> trackers_to_delete (accumulated)" % short)
+        elif val_ok:
+            rr.ok("%s rejected -> argument of the no-refund delete" % short)
+        elif es or direct:
+            rr.fail("fbc:%s-rejected-kept" % short, "trackers rejected by %s are not queued for deletion" % name, where=f.line_of(es[0][0]) if es else f.span)
+        else:
+            rr.fail("fbc:%s-result-ignored" % short, "the rejected list of %s is not examined" % name, where=f.span)
     # check_confirmations: completion only on == IRREVOCABLY_RESOLVED, status update on first confirmation
     cc = P.require(RSP + "check_confirmations")
     pushes = sites(cc, "std::vec::Vec::<T, A>::push")
